@@ -612,32 +612,103 @@ fn check_fair(w: &mut World, id: NodeId) {
         .filter(|(_, &k)| matches!(&w.nodes[k].kind, NodeKind::Leaf { always: true, .. }))
         .map(|(i, _)| i)
         .collect();
-    if always.is_empty() {
+    if always.is_empty() || n == 0 {
         return;
     }
+    // provenance of every yield: the input whose subtree produced the token
+    // (linear in the number of yields, so that runs of 10^5 polls and merges
+    // of 10^5 inputs stay cheap)
+    let kid_index: std::collections::HashMap<NodeId, usize> = kids.iter().enumerate().map(|(i, &k)| (k, i)).collect();
+    let input_of = |w: &World, s: &Shape| -> Option<usize> {
+        let mut toks = Vec::new();
+        s.toks(&mut toks);
+        let t = *toks.first()?;
+        let mut node = w.toks.get(crate::val::index_of(t))?.producer?;
+        loop {
+            if let Some(i) = kid_index.get(&node) {
+                return Some(*i);
+            }
+            node = w.nodes[node].parent?;
+        }
+    };
     let prov: Vec<Option<usize>> = w.nodes[id]
         .polls
         .iter()
         .filter_map(|p| match &p.answer {
-            Answer::Item(s) => Some(locate(w, &kids, s, &[]).map(|x| x.0)),
+            Answer::Item(s) => Some(input_of(w, s)),
             _ => None,
         })
         .collect();
-    if n == 0 || prov.len() < n {
+    if prov.len() < n {
         return;
     }
-    for d in always {
-        for start in 0..=(prov.len() - n) {
-            if !prov[start..start + n].iter().any(|p| *p == Some(d)) {
-                let me = w.path(id);
-                w.violate_f(
-                    Oracle::Fair,
-                    Some(Family::Merge),
-                    format!("{}: input {} has an item on every poll, yet yields {}..{} (a window of N={}) contain none of its items", me, d, start, start + n - 1, n),
-                );
-                return;
+    // input d is missing from some window of n consecutive yields iff two
+    // consecutive occurrences of d (or the ends of the run) are >= n yields apart
+    let mut last: std::collections::HashMap<usize, isize> = always.iter().map(|d| (*d, -1isize)).collect();
+    let mut bad: Option<(usize, usize)> = None;
+    for (i, p) in prov.iter().enumerate() {
+        if let Some(d) = p {
+            if let Some(l) = last.get_mut(d) {
+                if (i as isize - *l - 1) as usize >= n && bad.is_none() {
+                    bad = Some((*d, (*l + 1) as usize));
+                }
+                *l = i as isize;
             }
         }
+    }
+    if bad.is_none() {
+        for d in &always {
+            let l = last[d];
+            if (prov.len() as isize - l - 1) as usize >= n {
+                bad = Some((*d, (l + 1) as usize));
+                break;
+            }
+        }
+    }
+    if let Some((d, start)) = bad {
+        let me = w.path(id);
+        w.violate_f(
+            Oracle::Fair,
+            Some(Family::Merge),
+            format!("{}: input {} has an item on every poll, yet yields {}..{} (a window of N={}) contain none of its items", me, d, start, start + n - 1, n),
+        );
+    }
+}
+
+/// Long fairness runs (tens of thousands of polls, tens of thousands of
+/// inputs): only the oracles that are linear in the length of the run.
+pub fn check_trace_fairness_only(w: &mut World) {
+    let ids: Vec<NodeId> = w.nodes.iter().filter(|n| n.family() == Some(Family::Merge)).map(|n| n.id).collect();
+    for id in ids {
+        check_fair(w, id);
+        check_merge_counts(w, id);
+    }
+    check_drops(w);
+}
+
+/// Linear summary of the merge oracle for huge cases: when the merged stream
+/// returns None every input has ended and exactly as many items were yielded as
+/// the inputs produced.
+fn check_merge_counts(w: &mut World, id: NodeId) {
+    let ended_at = w.nodes[id].polls.iter().find(|p| matches!(p.answer, Answer::End)).map(|p| p.end);
+    let Some(end) = ended_at else { return };
+    let kids = w.nodes[id].children().to_vec();
+    let yielded = w.nodes[id].polls.iter().filter(|p| matches!(p.answer, Answer::Item(_))).count();
+    let mut produced = 0usize;
+    let mut not_ended = None;
+    for &k in &kids {
+        let n = &w.nodes[k];
+        produced += n.polls.iter().filter(|p| matches!(p.answer, Answer::Item(_)) && p.end <= end).count();
+        if !matches!(n.ended_at(), Some(c) if c <= end) && not_ended.is_none() {
+            not_ended = Some(k);
+        }
+    }
+    if let Some(k) = not_ended {
+        let kp = w.path(k);
+        v(w, Family::Merge, id, format!("returned None while input {} had not ended", kp));
+    }
+    if produced != yielded {
+        v(w, Family::Merge, id, format!("returned None after yielding {} items but the inputs produced {}", yielded, produced));
     }
 }
 
